@@ -301,6 +301,15 @@ impl<'a> Gen<'a> {
             return (E::Int(self.small_int()), Ty::Int);
         }
         let d = depth - 1;
+        if self.pct(self.p.iterators / 5) {
+            // manual pull: the element of the next step of a visible int iterator (unspecified once exhausted)
+            let its = self.vars_where(|t| iter_elem(t) == Some(Ty::Int));
+            if !its.is_empty() {
+                let (n, _) = self.rng.pick(&its).clone();
+                self.tag("iter:manual-pull-element");
+                return (E::TupAcc(Box::new(E::Call(Box::new(E::Var(n)), vec![])), 1), Ty::Int);
+            }
+        }
         let choice = self.rng.weighted(&[14, 22, 4, 8, 6, 6, self.p.cells, 6, 5, self.p.iterators, 4, self.p.cells / 2, 3]);
         match choice {
             0 => (E::Int(self.small_int()), Ty::Int),
@@ -363,7 +372,7 @@ impl<'a> Gen<'a> {
                 // call a function returning int
                 let defining = self.defining.clone();
                 let fs: Vec<(String, Ty)> = self
-                    .vars_where(|t| matches!(t, Ty::Fun(ps, r) if **r == Ty::Int && ps.len() <= 3 && ps.iter().all(|p| !matches!(p, Ty::Fun(..) | Ty::Never))))
+                    .vars_where(|t| matches!(t, Ty::Fun(ps, r) if **r == Ty::Int && ps.len() <= 3 && ps.iter().all(|p| !matches!(p, Ty::Never))))
                     .into_iter()
                     .filter(|(n, _)| !defining.contains(n))
                     .collect();
@@ -514,6 +523,15 @@ impl<'a> Gen<'a> {
             return (E::Bool(self.rng.chance(1, 2)), Ty::Bool);
         }
         let d = depth - 1;
+        if self.pct(self.p.iterators / 4) {
+            // manual pull: the flag of the next step of a visible iterator
+            let its = self.vars_where(|t| iter_elem(t).is_some());
+            if !its.is_empty() {
+                let (n, _) = self.rng.pick(&its).clone();
+                self.tag("iter:manual-pull-flag");
+                return (E::TupAcc(Box::new(E::Call(Box::new(E::Var(n)), vec![])), 0), Ty::Bool);
+            }
+        }
         match self.rng.weighted(&[6, 12, 8, 8, 4, 6, self.p.iterators / 2]) {
             0 => (E::Bool(self.rng.chance(1, 2)), Ty::Bool),
             1 => {
@@ -805,11 +823,57 @@ impl<'a> Gen<'a> {
     // ----- statements --------------------------------------------------------------------
 
     fn let_stm(&mut self, depth: u32) -> S {
+        if depth > 0 && self.pct(self.p.modules) {
+            return self.module_stm(depth - 1);
+        }
+        if self.pct(self.p.cells / 2) {
+            // alias an existing cell, or put cells into a container
+            let cells = self.vars_where(|t| matches!(t, Ty::Mut(_)));
+            if !cells.is_empty() {
+                let (c, ct) = self.rng.pick(&cells).clone();
+                let n = self.name();
+                let (e, t) = match self.rng.below(4) {
+                    0 => (E::Var(c), ct),
+                    1 => (E::Arr(vec![E::Var(c.clone()), E::Var(c)]), Ty::arr(ct)),
+                    2 => (E::Tup(vec![E::Var(c), E::Int(self.small_int())]), Ty::Tup(vec![ct, Ty::Int])),
+                    _ => {
+                        let mut f = BTreeMap::new();
+                        f.insert("a".to_string(), ct);
+                        (E::Struct(vec![("a".to_string(), E::Var(c))]), Ty::Struct(f))
+                    }
+                };
+                self.tag("stm:alias-cell");
+                self.declare(&n, t);
+                return S::Let(n, Box::new(S::Expr(e)));
+            }
+        }
         let t = self.decl_type();
         let n = self.name();
         let (e, et) = self.expr(&t, depth);
         self.declare(&n, et);
         S::Let(n, Box::new(S::Expr(e)))
+    }
+
+    /// `m := mod { ... }`: a struct of exactly the module's own top-level names
+    fn module_stm(&mut self, depth: u32) -> S {
+        let n = self.name();
+        self.push();
+        let mut body = Vec::new();
+        let k = 1 + self.rng.below(3);
+        for _ in 0..k {
+            let s = if self.pct(25) { self.fn_decl(depth) } else { self.let_stm(depth.min(1)) };
+            body.push(s);
+        }
+        // the module's own names, in declaration order (later declarations win)
+        let own: Vec<(String, Ty)> = self.scopes.last().unwrap().clone();
+        self.pop();
+        let mut fields = BTreeMap::new();
+        for (name, t) in own {
+            fields.insert(name, t);
+        }
+        self.tag("stm:module");
+        self.declare(&n, Ty::Struct(fields));
+        S::Let(n, Box::new(S::Expr(E::Mod(body))))
     }
 
     /// a statement producing a value of (a subtype of) `goal`, usable as `x := <stm>` or a function's tail
@@ -1006,6 +1070,33 @@ impl<'a> Gen<'a> {
             5 => {
                 let (s, _) = self.value_stm(&Ty::Any, depth.min(2));
                 s
+            }
+            6 if self.p.type_tests && self.pct(30) => {
+                // while-set over a union-typed cell that the body eventually turns into a string
+                let u = Ty::union([Ty::Int, Ty::Str]);
+                let k = self.counter_name();
+                let v = self.name();
+                let start = self.rng.range(0, 3);
+                self.push();
+                self.declare(&k, Ty::mutc(u.clone()));
+                let init = S::Let(k.clone(), Box::new(S::Expr(E::Mut(Some(u.clone()), Box::new(E::Int(start))))));
+                self.push();
+                self.declare(&v, Ty::Int);
+                let step = S::If(
+                    E::Bin("<=", Box::new(E::Var(v.clone())), Box::new(E::Int(0))),
+                    Box::new(S::Block(vec![S::Expr(E::Bin("=", Box::new(E::Var(k.clone())), Box::new(E::Str("done".into()))))])),
+                    Some(Box::new(S::Block(vec![S::Expr(E::Bin(
+                        "=",
+                        Box::new(E::Var(k.clone())),
+                        Box::new(E::Bin("-", Box::new(E::Var(v.clone())), Box::new(E::Int(1)))),
+                    ))]))),
+                );
+                let mut body = vec![step];
+                body.extend(self.loop_body(d));
+                self.pop();
+                self.pop();
+                self.tag("stm:while-set");
+                S::Block(vec![init, S::WhileSet(v, Ty::Int, E::Un("*", Box::new(E::Var(k))), Box::new(S::Block(body)))])
             }
             6 => {
                 // bounded while loop
